@@ -1,8 +1,18 @@
 #!/bin/bash
-# evaluate every patch under /tmp/rf/*/patches that has no result yet (sequential: the checks share /repo)
-for P in /tmp/rf/*/patches/C??_?.diff; do
-  N=$(basename $P .diff)
-  [ -f /verif/refactors/$N/result.txt ] && continue
-  [ -f "${P%.diff}.txt" ] || continue      # the agent writes the .txt after the .diff: wait until both are there
-  /verif/tools/refactor_eval.sh $P $N
+# evaluate every patch under /tmp/rf/*/patches that has no result yet (sequential: the checks share /repo).
+# Pauses between patches while /verif/work/rf_pause exists (so that /repo can be used for something else).
+while true; do
+  DONE=1
+  for P in /tmp/rf/*/patches/C??_?.diff; do
+    N=$(basename $P .diff)
+    [ -f /verif/refactors/$N/result.txt ] && continue
+    [ -f "${P%.diff}.txt" ] || continue
+    while [ -f /verif/work/rf_pause ]; do sleep 5; done
+    DONE=0
+    touch /verif/work/rf_busy
+    /verif/tools/refactor_eval.sh $P $N
+    rm -f /verif/work/rf_busy
+  done
+  [ $DONE = 1 ] && [ -f /verif/work/rf_last ] && break
+  sleep 20
 done
